@@ -36,7 +36,27 @@ type spFunc struct {
 	fileVar string
 	tmpExpr string
 	curExpr string
+	subst   map[string]string // inside an inlined helper: parameter name -> text of the caller's argument
 	steps   []spStep
+}
+
+// pathText prints a path expression; inside an inlined helper a parameter stands for the caller's argument
+func (f *spFunc) pathText(e ast.Expr) string {
+	if id, ok := e.(*ast.Ident); ok {
+		if t, ok := f.subst[id.Name]; ok {
+			return t
+		}
+	}
+	return spPrint(f.fset, e)
+}
+
+func (f *spFunc) pathText2(outer map[string]string, e ast.Expr) string {
+	if id, ok := e.(*ast.Ident); ok {
+		if t, ok := outer[id.Name]; ok {
+			return t
+		}
+	}
+	return spPrint(f.fset, e)
 }
 
 func spPrint(fset *token.FileSet, n ast.Node) string {
@@ -69,7 +89,7 @@ func (f *spFunc) classify(call *ast.CallExpr) (string, error) {
 					return "", fmt.Errorf("os.OpenFile flags %q: the model assumes O_CREATE|O_TRUNC", flags)
 				}
 			}
-			arg := spPrint(f.fset, call.Args[0])
+			arg := f.pathText(call.Args[0])
 			if f.tmpExpr != "" && f.tmpExpr != arg {
 				return "", fmt.Errorf("a second file %q is opened", arg)
 			}
@@ -79,7 +99,7 @@ func (f *spFunc) classify(call *ast.CallExpr) (string, error) {
 			if len(call.Args) != 2 {
 				return "", fmt.Errorf("os.Rename arity")
 			}
-			from, to := spPrint(f.fset, call.Args[0]), spPrint(f.fset, call.Args[1])
+			from, to := f.pathText(call.Args[0]), f.pathText(call.Args[1])
 			if from != f.tmpExpr {
 				return "", fmt.Errorf("os.Rename source %q is not the temp file %q", from, f.tmpExpr)
 			}
@@ -92,7 +112,7 @@ func (f *spFunc) classify(call *ast.CallExpr) (string, error) {
 			f.curExpr = to
 			return "OpRename", nil
 		case "Remove":
-			if len(call.Args) != 1 || spPrint(f.fset, call.Args[0]) != f.tmpExpr {
+			if len(call.Args) != 1 || f.pathText(call.Args[0]) != f.tmpExpr {
 				return "", fmt.Errorf("os.Remove of something else than the temp file")
 			}
 			return "OpRemove", nil
@@ -118,8 +138,11 @@ func (f *spFunc) classify(call *ast.CallExpr) (string, error) {
 			return "OpWrite", nil
 		}
 	}
-	if _, ok := f.methods[name]; ok && name == "saveToTmp" {
-		return "inline:" + name, nil
+	// a helper method of the same receiver type (saveToTmp, or whatever a refactoring calls it) is inlined
+	if _, ok := f.methods[name]; ok {
+		if _, onVar := sel.X.(*ast.Ident); onVar && !isIdent(sel.X, "os") {
+			return "inline:" + name, nil
+		}
 	}
 	// the file handed to any other function: not understood
 	for _, a := range call.Args {
@@ -183,7 +206,10 @@ func (f *spFunc) translate(fd *ast.FuncDecl) ([]spStep, error) {
 	var deferred []string
 	pending := -1          // index in steps of the call whose error sits in `err`
 	pendingInline := false // `err` is the result of an inlined callee (its propagating steps carry "^")
-	pos := func(n ast.Node) string { p := f.fset.Position(n.Pos()); return fmt.Sprintf("%s:%d", filepath.Base(p.Filename), p.Line) }
+	pos := func(n ast.Node) string {
+		p := f.fset.Position(n.Pos())
+		return fmt.Sprintf("%s:%d", filepath.Base(p.Filename), p.Line)
+	}
 
 	emitCall := func(call *ast.CallExpr, lhs []ast.Expr) (bool, error) {
 		op, err := f.classify(call)
@@ -192,7 +218,22 @@ func (f *spFunc) translate(fd *ast.FuncDecl) ([]spStep, error) {
 		}
 		if strings.HasPrefix(op, "inline:") {
 			callee := f.methods[strings.TrimPrefix(op, "inline:")]
+			// bind the helper's parameters to the texts of the arguments
+			saved := f.subst
+			f.subst = map[string]string{}
+			ai := 0
+			if callee.Type.Params != nil {
+				for _, fld := range callee.Type.Params.List {
+					for _, nm := range fld.Names {
+						if ai < len(call.Args) {
+							f.subst[nm.Name] = f.pathText2(saved, call.Args[ai])
+						}
+						ai++
+					}
+				}
+			}
 			sub, err := f.translate(callee)
+			f.subst = saved
 			if err != nil {
 				return false, err
 			}
@@ -530,8 +571,8 @@ func genSaveProto(repo string) (string, string, error) {
 		return "", "", err
 	}
 	gm := spMethods(gf, "Offset")
-	if gm["Save"] == nil || gm["saveToTmp"] == nil {
-		return "", "", fmt.Errorf("(*Offset).Save / saveToTmp not found")
+	if gm["Save"] == nil {
+		return "", "", fmt.Errorf("(*Offset).Save not found")
 	}
 	if err := spCheckCallback(repo, fset); err != nil {
 		return "", "", err
